@@ -482,6 +482,127 @@ def admissible(m, mm, dd):
   return fails, stats
 
 
+# ---------------------------------------------------------------------------------------------
+# batched option / geom fields: per-world impratio, friction, solref, solimp
+# ---------------------------------------------------------------------------------------------
+def slope_scene(rng, cone, solver, jacobian):
+  """Bodies resting on a plane under tilted gravity (some stick, some slide), one explicit pair; condim 3/4/6."""
+  gx, gy = rng.uniform(2.0, 7.0) * rng.choice([-1, 1]), rng.uniform(-2.0, 2.0)
+  bodies, names = "", []
+  for i, (gt, size, z) in enumerate([("box", "0.1 0.08 0.05", 0.048), ("sphere", "0.07", 0.068), ("capsule", "0.04 0.1", 0.039), ("ellipsoid", "0.09 0.06 0.05", 0.048)]):
+    cd = int(rng.choice([3, 4, 6]))
+    quat = "1 0 0 0" if gt != "capsule" else "0.7071 0 0.7071 0"
+    bodies += (
+      f'<body name="b{i}" pos="{0.5 * i - 0.7:.3g} {rng.uniform(-0.1, 0.1):.3g} {z}" quat="{quat}"><freejoint/>'
+      f'<geom name="g{i}" type="{gt}" size="{size}" condim="{cd}" friction="{rng.uniform(0.2, 0.9):.3g} {rng.uniform(0.002, 0.05):.3g} {rng.uniform(0.0005, 0.01):.3g}"/></body>'
+    )
+    names.append(f"g{i}")
+  pair = f'<contact><pair geom1="floor" geom2="g3" condim="{int(rng.choice([3, 4, 6]))}" friction="{rng.uniform(0.2, 0.8):.3g} {rng.uniform(0.2, 0.8):.3g} 0.01 0.001 0.001"/></contact>'
+  xml = (
+    f'<mujoco><option cone="{cone}" solver="{solver}" jacobian="{jacobian}" gravity="{gx:.3g} {gy:.3g} -9.81" timestep="0.002" tolerance="1e-10" iterations="{200 if solver == "CG" else 100}"/>'
+    f'<worldbody><geom name="floor" type="plane" size="5 5 .1" condim="3" friction="0.6 0.01 0.001"/>{bodies}</worldbody>{pair}</mujoco>'
+  )
+  return xml, {"cone": cone, "solver": solver, "jacobian": jacobian, "adhesion": False}
+
+
+def run_batched_options(xml, spec, single=None):
+  """forward() with per-world Model fields.  spec = {impratio:[..], fric:[scale per world], solref0:[..], solimp0:[..], dz:[..], vel:[..]};
+  single = world index: a single-world run carrying that world's values in the MjModel itself (reference)."""
+  import mujoco
+  import warp as wp
+
+  import mujoco_warp as mjw
+
+  m = mujoco.MjModel.from_xml_string(xml)
+  worlds = list(range(len(spec["impratio"]))) if single is None else [single]
+  base = {k: getattr(m, k).copy() for k in ("geom_friction", "geom_solref", "geom_solimp", "pair_friction", "pair_solref", "pair_solimp")}
+
+  def fields(w):
+    out = {k: v.copy() for k, v in base.items()}
+    out["geom_friction"][:, 0] *= spec["fric"][w]
+    out["pair_friction"][:, :2] *= spec["fric"][w]
+    out["geom_solref"][:, 0] = spec["solref0"][w]
+    out["pair_solref"][:, 0] = spec["solref0"][w]
+    out["geom_solimp"][:, 0] = spec["solimp0"][w]
+    out["pair_solimp"][:, 0] = spec["solimp0"][w]
+    return out
+
+  if single is not None:
+    m.opt.impratio = spec["impratio"][single]
+    for k, v in fields(single).items():
+      getattr(m, k)[:] = v
+  d = mujoco.MjData(m)
+  mujoco.mj_forward(m, d)
+  qp, qv = [], []
+  for w in worlds:
+    q = d.qpos.copy()
+    q[2::7] += spec["dz"][w]
+    qp.append(q)
+    v = np.zeros(m.nv)
+    v[0::6] = spec["vel"][w]
+    qv.append(v)
+  mm = mjw.put_model(m)
+  dd = mjw.put_data(m, d, nworld=len(worlds), njmax=128, naconmax=64 * len(worlds))
+  if single is None:
+    mm.opt.impratio_invsqrt = wp.array(1.0 / np.sqrt(np.array(spec["impratio"], dtype=np.float64)), dtype=float)
+    per = [fields(w) for w in worlds]
+    vt = {"geom_friction": wp.vec3, "geom_solref": wp.vec2, "geom_solimp": mm.geom_solimp.dtype, "pair_friction": mm.pair_friction.dtype, "pair_solref": wp.vec2, "pair_solimp": mm.pair_solimp.dtype}
+    for k in base:
+      setattr(mm, k, wp.array(np.array([p[k] for p in per], dtype=np.float32), dtype=vt[k]))
+  dd.qpos = wp.array(np.array(qp, dtype=np.float32), dtype=float)
+  dd.qvel = wp.array(np.array(qv, dtype=np.float32), dtype=float)
+  out = []
+  for phase in range(2):
+    mjw.forward(mm, dd)
+    wp.synchronize()
+    out.append({"qacc": dd.qacc.numpy().astype(np.float64).copy(), "force": [np.sort(dd.efc.force.numpy()[w, : int(dd.nefc.numpy()[w])].astype(np.float64)) for w in range(dd.nworld)]})
+    yield phase, m, mm, dd, out[-1]
+    for _ in range(2):
+      mjw.step(mm, dd)
+
+
+def batched_options_oracle(res, nscenes):
+  rng = np.random.default_rng(vlib.seed() + 2430)
+  fails = []
+  agg = {"scenes": 0, "worlds": 0, "rows": 0, "elliptic_contacts": 0, "dscale_bad": 0, "worst_batch_vs_single": 0.0, "states": set()}
+  combos = [("elliptic", "Newton", "dense"), ("elliptic", "CG", "sparse"), ("pyramidal", "Newton", "sparse"), ("elliptic", "Newton", "sparse"), ("pyramidal", "CG", "dense"), ("elliptic", "CG", "dense")]
+  for k in range(nscenes):
+    cone, solver, jac = combos[k % len(combos)]
+    xml, cfg = slope_scene(rng, cone, solver, jac)
+    nworld = (2, 3, 4)[k % 3]
+    imp = rng.permutation([10.0, 1.0, 0.3, 4.0])[:nworld]
+    if k % 2 == 0:
+      imp[0], imp[1] = 10.0, 1.0  # a world whose impratio is much smaller than world 0's
+    spec = {"impratio": [float(x) for x in imp], "fric": [float(x) for x in rng.uniform(0.5, 1.6, nworld)], "solref0": [float(x) for x in rng.uniform(0.01, 0.04, nworld)],
+            "solimp0": [float(x) for x in rng.uniform(0.7, 0.95, nworld)], "dz": [float(x) for x in rng.uniform(-0.004, 0.0, nworld)], "vel": [float(x) for x in rng.uniform(-0.3, 0.3, nworld)]}  # fmt: skip
+    cfg = dict(cfg, batched=spec, nworld=nworld)
+    batch = {}
+    for phase, m, mm, dd, o in run_batched_options(xml, spec):
+      f, st = admissible(m, mm, dd)
+      batch[phase] = o
+      for key in ("rows", "elliptic_contacts", "dscale_bad"):
+        agg[key] += st[key]
+      agg["states"] |= st["states"]
+      for x in f[:3]:
+        fails.append({"xml": xml, "config": cfg, "phase": phase, "failure": dict(x, site="batched:" + x["site"])})
+    # batch vs a single-world run carrying the same values in the MjModel
+    for w in range(nworld):
+      for phase, m, mm, dd, o in run_batched_options(xml, spec, single=w):
+        qb, qs = batch[phase]["qacc"][w], o["qacc"][0]
+        err = float(np.max(np.abs(qb - qs)) / (1 + np.max(np.abs(qs))))
+        fb, fs = batch[phase]["force"][w], o["force"][0]
+        ferr = float(np.max(np.abs(fb - fs)) / (1 + np.max(np.abs(fs)))) if len(fb) == len(fs) and len(fs) else (0.0 if len(fb) == len(fs) else 1.0)
+        agg["worst_batch_vs_single"] = max(agg["worst_batch_vs_single"], err, ferr)
+        if err > 2e-2 or ferr > 2e-2:
+          fails.append({"xml": xml, "config": cfg, "phase": phase, "failure": {"site": "batched:batch-vs-single-world", "world": w, "qacc_rel_err": err, "efc_force_rel_err": ferr, "impratio": spec["impratio"][w], "qacc_batch": qb.tolist(), "qacc_single": qs.tolist()}})
+    res.count()
+    res.nontrivial(("batched", k, cone, solver, jac, nworld))
+    agg["scenes"] += 1
+    agg["worlds"] += nworld
+  res.extra["batched_options_oracle"] = {k: (sorted(map(list, v)) if isinstance(v, set) else (round(v, 6) if isinstance(v, float) else int(v))) for k, v in agg.items()}
+  return fails, agg
+
+
 CONFIGS = [
   ("pyramidal", "Newton", "dense"), ("elliptic", "Newton", "dense"), ("pyramidal", "CG", "dense"), ("elliptic", "CG", "sparse"),
   ("elliptic", "Newton", "sparse"), ("pyramidal", "Newton", "sparse"),
@@ -522,7 +643,7 @@ def run(res):
   res.rule = (
     "T-validation: random float32 inputs per translated function (all row kinds, the three elliptic zones, degenerate D/mu/TT), distinct = agreeing "
     "non-discarded cases; kernel correspondence: generated row layouts (equality/friction/limit rows + elliptic contacts of dim 3,4,6) run through the "
-    "real _update_constraint_efc; function oracle: C24 predicates on the compiled _eval_constraint; forward oracle: random contact scenes x cone x solver x jacobian"
+    "real _update_constraint_efc; function oracle: C24 predicates on the compiled _eval_constraint; forward oracle: random contact scenes x cone x solver x jacobian; batched-options oracle: 2-4 worlds with per-world impratio / geom+pair friction / solref / solimp, bodies sliding and sticking on a plane under tilted gravity, per-world admissibility and agreement with a single-world run carrying the same values"
   )
   import time
 
@@ -547,6 +668,16 @@ def run(res):
       search = True
     tm["kernel"] = round(time.time() - t0, 1)
   fails, agg = forward_oracle(res, (12 if quick else 120) * (2 if search else 1))
+  bfails, bagg = batched_options_oracle(res, (6 if quick else 36) * (2 if search else 1))
+  tm["batched"] = round(time.time() - t0, 1)
+  agg["dscale_bad"] += bagg["dscale_bad"]
+  agg["elliptic_contacts"] += bagg["elliptic_contacts"]
+  seenb = set()
+  for f in bfails:
+    key = f"C24:forward:{f['failure']['site']}:{f['config']['cone']}"
+    if key not in seenb and len(seenb) < 4:
+      seenb.add(key)
+      res.violation(key, f"batch of {f['config']['nworld']} worlds with per-world impratio/friction/solref/solimp, after forward(): {f['failure']}", f)
   tm["forward"] = round(time.time() - t0, 1)
   res.obligation(
     "hypothesis D_j*mu^2 = D_0*mu_j^2 holds on every sampled elliptic contact (constraint.py)", agg["dscale_bad"] == 0,
@@ -558,7 +689,7 @@ def run(res):
     res.violation(f"C24:_update_constraint_efc:{f['site']}", "kernel output violates the friction-cone / row-layout property", f)
   for f in fails[:3]:
     res.violation(f"C24:forward:{f['failure']['site']}", f"after forward(): {f['failure']}", f)
-  found = bool(ffails or cone_fails or fails)
+  found = bool(ffails or cone_fails or fails or bfails)
   if tbad and not found:
     res.violation("C24:translator-mismatch", "translated Gallina disagrees with compiled Warp function (model no longer tied to code)", tbad[:3], found_input=False)
   if kbad and not found:
@@ -580,6 +711,13 @@ def replay(res, path):
   if isinstance(r, list) or not isinstance(r, dict):
     print("replay: no concrete input in this file (proof/correspondence breakage); re-run the check")
     return 1
+  if "xml" in r and "batched" in r.get("config", {}):
+    bad = []
+    for phase, m, mm, dd, o in run_batched_options(r["xml"], r["config"]["batched"]):
+      f, st = admissible(m, mm, dd)
+      bad += [dict(x, phase=phase) for x in f]
+    print("failures:", bad[:4])
+    return 1 if bad else 0
   if "xml" in r:
     m, d, mm, dd = run_forward(r["xml"], np.array(r["qpos"]), np.array(r["qvel"]))
     f, st = admissible(m, mm, dd)
